@@ -564,10 +564,14 @@ def run_property(pid, tier, replay_path=None, only=None, nproc=None):
             elif v == "sat":
                 nsat += 1
                 hsum["sat"] += 1
-                # one replay per (harness instance, label family)
+                # one replay per (harness instance, label family); at most 6 unexplained and 2
+                # known-finding families per instance are replayed (the rest of an instance's
+                # counterexamples add nothing to the verdict: one confirmed violation fails the check)
                 fam = family(rec["label"])
-                if (fam,) not in sat_seen and len(sat_seen) < 6:
-                    sat_seen.add((fam,))
+                isk = match_known(known, pid, hname, params, fam) is not None
+                cnt = sum(1 for f, k_ in sat_seen if k_ == isk)
+                if (fam, isk) not in sat_seen and cnt < (2 if isk else 6):
+                    sat_seen.add((fam, isk))
                     replay_tasks.append((pid, hname, params, "replay", 0, rec.get("model", {}),
                                          None, rec))
             else:
